@@ -168,6 +168,18 @@ func failOps() []failOp {
 			e := padOp(Bin("+", Name("x"), padR(Name("s"), l)), l)
 			return []*Node{assignParen(withFill(l.K, e))}, func() Pos { return e.OpPos }, ""
 		}},
+		{"binary-before-literal-run", func(l layout) ([]*Node, func() Pos, string) {
+			// x + "a" + "b": the compiler may fold the literals; the failing + is the first one
+			first := padOp(Bin("+", Name("x"), padR(Str("a"), l)), l)
+			e := Bin("+", Bin("+", first, Str("b")), Str("c"))
+			return []*Node{assignParen(withFill(l.K, e))}, func() Pos { return first.OpPos }, ""
+		}},
+		{"binary-after-literal-run", func(l layout) ([]*Node, func() Pos, string) {
+			// "a" + "b" + x + "c": the failing + is the second one
+			second := padOp(Bin("+", Bin("+", Str("a"), Str("b")), padR(Name("x"), l)), l)
+			e := Bin("+", second, Str("c"))
+			return []*Node{assignParen(withFill(l.K, e))}, func() Pos { return second.OpPos }, ""
+		}},
 		{"compare", func(l layout) ([]*Node, func() Pos, string) {
 			e := padOp(Bin("<", Name("x"), padR(Name("s"), l)), l)
 			return []*Node{assignParen(withFill(l.K, e))}, func() Pos { return e.OpPos }, ""
@@ -249,6 +261,12 @@ func failOps() []failOp {
 			t := Index(Name("x"), padRcols(Num(0), l))
 			t.OpPad = l.P1
 			return []*Node{Assign("+=", t, withFill(l.K, Num(1)))}, func() Pos { return t.OpPos }, ""
+		}},
+		{"augmented-index-store", func(l layout) ([]*Node, func() Pos, string) {
+			// the load half succeeds, the store half fails (a tuple element)
+			t := Index(Name("q"), padRcols(Num(0), l))
+			t.OpPad = l.P1
+			return []*Node{Assign("=", Name("q"), Tuple(Num(1), Num(2))), Assign("+=", t, Num(1))}, func() Pos { return t.OpPos }, ""
 		}},
 		{"augmented-op", func(l layout) ([]*Node, func() Pos, string) {
 			st := Assign("+=", Name("x"), padRcols(Name("s"), l))
